@@ -69,6 +69,18 @@ def impl_merge(pred, ref, mname, thr):
     return mp, log
 
 
+def own_candidates(pred, ref, mname):
+    """the overlapping (reference, prediction) pairs with their single scores, enumerated by the harness itself (the library's own
+    enumeration is what C03 checks; here it must not be trusted to be complete)"""
+    both = (pred != 0) & (ref != 0)
+    pairs = sorted({(int(r), int(p)) for r, p in zip(ref[both].tolist(), pred[both].tolist())})
+    out = []
+    for r, p in pairs:
+        with np.errstate(all="ignore"):
+            out.append((float(impl.metric(mname)(ref.copy(), pred.copy(), r, [p])), r, p))
+    return out
+
+
 def fragments(rng):
     """references covered by several prediction fragments, some of which should be rejected"""
     nd = rng.choice([1, 2])
@@ -129,6 +141,35 @@ def fragments2(rng):
     return pred, ref
 
 
+def fragments3(rng):
+    """references as neighbouring intervals, predictions as an independent partition into intervals: fragments BRIDGE two references,
+    so a fragment rejected at (or lost to) its better reference is still a candidate of the other one"""
+    w = rng.randint(24, 60)
+    h = rng.choice([1, 1, 2])
+    dense = rng.random() < 0.25          # parcellation-like: no background voxel anywhere in the pair
+    ref = np.zeros((h, w), np.uint8)
+    pred = np.zeros((h, w), np.uint8)
+    pos = 0 if dense else rng.randint(0, 3)
+    r = 0
+    while pos < w - 6 and r < 3:
+        r += 1
+        length = rng.randint(6, 16)
+        ref[:, pos:min(w, pos + length)] = r
+        pos += length + (0 if dense else rng.choice([0, 0, 1, 2]))
+    if dense:
+        ref[:, pos:] = r
+    pos, lab = 0 if dense else rng.randint(0, 2), 0
+    while pos < w:
+        length = rng.randint(2, 12)
+        if dense or rng.random() < 0.85:
+            lab += 1
+            pred[:, pos:min(w, pos + length)] = lab
+            if h == 2 and rng.random() < 0.3 and not dense:
+                pred[0, pos:min(w, pos + length)] = 0
+        pos += length
+    return pred, ref
+
+
 def run(ctx):
     common.serial_pool()
     rng = ctx.rng
@@ -138,7 +179,7 @@ def run(ctx):
     p = np.zeros((1, 40), np.uint8); p[0, 0:7] = 1; p[0, 7:40] = 2
     cases.append((p, r, "ASSD", 5.0))
     for it in range(ctx.scale(300, 3000)):
-        pred, ref = fragments(rng) if it % 2 == 0 else fragments2(rng)
+        pred, ref = fragments(rng) if it % 3 == 0 else (fragments2(rng) if it % 3 == 1 else fragments3(rng))
         if not pred.any() or not ref.any():
             continue
         mname = rng.choice(["IOU", "DSC", "ASSD"])
@@ -173,6 +214,10 @@ def run(ctx):
             ctx.violation("merge matching did not return a result: " + str(mp[1:]), {**case, "observed": mp})
             continue
         single = {(rr, pp): s for s, rr, pp in cands}
+        own = own_candidates(pred, ref, mname)
+        if {(r_, p_) for _, r_, p_ in own} != set(single):
+            ctx.disagree("candidate pairs offered to the merge matcher are not the overlapping pairs",
+                         {**case, "offered": sorted(single), "overlapping": sorted((r_, p_) for _, r_, p_ in own)})
         bad = []
         groups = {}
         for pp, rr in mp.items():
@@ -225,6 +270,14 @@ def run(ctx):
                     final = float(impl.metric(mname)(ref, pred, rr, sorted(ps)))
             if not beats(decr, final, thr) or strictly_better(decr, best, final):
                 bad.append(f"reference {rr}: final score {final} is worse than its best single candidate {best} or misses the threshold {thr}")
+            # ... and at least as good as EVERY single candidate of this reference that was not given to another reference (a candidate
+            # is visited after the reference's seed, which scores at least as well; merges only improve)
+            free = [(s_, pp) for s_, r2, pp in own if r2 == rr and mp.get(pp) in (None, rr)]
+            for s_, pp in free:
+                if strictly_better(decr, s_, final):
+                    bad.append(f"reference {rr}: final score {final} is worse than the single score {s_} of prediction {pp}, which overlaps it "
+                               f"and was {'left unassigned' if mp.get(pp) is None else 'assigned to it'}")
+                    break
         if bad:
             ctx.violation("merge matcher: " + "; ".join(bad[:3]), {**case, "matching": mp, "log": log, "candidates": cands})
         tbl = [[rr, plist, fq(s)] for rr, plist, s in log]
